@@ -23,4 +23,5 @@ def run(P, R, L):
     K.grd12_reuse_only_complete_logs(P, R, L)
     K.grd12_cursor_counts_complete_reads(P, R, L)
     K.grd12_fully_consumed_is_exact(P, R, L)
+    K.agr2_codec_pairs(P, R, L, groups=("log",))
     R.not_decided += ["block-boundary arithmetic beyond the guards above: fragment sizes, trailer padding width, offset bookkeeping after each emit (value level)"]
